@@ -30,6 +30,7 @@ struct Expect
 	std::string method, path, body;
 	std::map<std::string, std::string> query;                          // decoded key -> value
 	std::vector<std::pair<std::string, std::string> > headers;          // lookup name (some case) -> value
+	std::vector<std::string> absent;                                    // names that were never sent as headers (they occur inside a folded value)
 };
 
 static std::mutex g_mu;
@@ -226,6 +227,14 @@ static std::string genRequest(vf::Rng& r, Expect& e, bool last, std::vector<std:
 	};
 	addHeader("Host", "example.test", false);
 	addHeader("X-Req-Id", vf::fmt("%d", id), false);
+	// one request in ten carries a header whose value is folded onto a second line (obs-fold) that looks like a header of its own;
+	// how the two lines are joined is not judged, only that no header of that name appears
+	if (r.chance(0.1)) {
+		std::string inner = "X-Inner-" + genToken(r, 5);
+		req += "X-Folded-" + genToken(r, 4) + ": first part;\r\n" + (r.chance(0.5) ? " " : "\t") + inner + ": admin\r\n";
+		e.absent.push_back(inner);
+		lookups.push_back(inner);
+	}
 	int nh = r.range(0, 5);
 	for (int i = 0; i < nh; i++) {
 		std::string name = vf::fmt("X-H%d-", i) + genToken(r, 6);
@@ -284,6 +293,7 @@ static void compareSeen(vf::Ctx& c, const std::vector<Expect>& exp, const std::s
 			if (it == s.headers.end()) c.fail("wellformed.header-missing", at + "header(" + h.first + ")");
 			if (it->second != h.second) c.fail("wellformed.header-value", at + "header(" + h.first + ")='" + vf::vis(it->second, 80) + "' vs '" + vf::vis(h.second, 80) + "'");
 		}
+		for (auto& a : e.absent) if (s.headers.count(a)) c.fail("wellformed.header-never-sent", at + "header(" + a + ") = '" + vf::vis(s.headers.find(a)->second, 60) + "' was not sent as a header (it is the continuation of a folded value)");
 		if (s.body != e.body) {
 			size_t k = 0;
 			while (k < s.body.size() && k < e.body.size() && s.body[k] == e.body[k]) k++;
